@@ -29,7 +29,7 @@ THEOREMS = [
      "st_body s = [] /\\ exists g, send error_body package M_GET r = Ok g /\\ st_head g = st_head s /\\ "
      "announced (hd_headers (st_head s)) = Some (N.of_nat (length (st_body g)))"),
     ("one_response_per_request",
-     CONNQ + "app_ok Q A app -> packages_ok Q package -> forall (hs : list (hreq Q)) (a : A), "
+     CONNQ[:-2] + " (I : A -> Prop), app_ok Q A app I -> packages_ok Q package -> forall (hs : list (hreq Q)) (a : A), I a -> "
      "Forall (polite Q q_method q_content_length q_known_host) hs -> exists ss : list sent, "
      "conn_run Q A q_method q_content_length q_known_host q_head app error_body package too_many_body true true a (Open []) hs "
      "= (map Some ss, Open []) /\\ length ss = length hs /\\ "
